@@ -287,6 +287,32 @@ func c19Exec(c c19Case) (keys []string, detail, class string) {
 			bad("second-call-on-same-instance/same-object-returned", "")
 		}
 	}
+	// the operator replaces the (field) encryption key store on the SAME instance: the metadata
+	// produced afterwards must publish the new encryption certificate (the one decryption will
+	// use). Only the encryption descriptor is compared: the signing context is cached by design.
+	if k.EncField && !k.EncSetter {
+		sp.SPKeyStore = world.TLSKeyStore("K2")
+		var md3 *types.EntityDescriptor
+		p3 := guard(func() {
+			if c.SLO {
+				md3, _ = sp.MetadataWithSLO(h)
+			} else {
+				md3, _ = sp.Metadata()
+			}
+		})
+		wantEnc := base64.StdEncoding.EncodeToString(world.Cert("K2").Raw)
+		gotEnc := ""
+		if md3 != nil && md3.SPSSODescriptor != nil {
+			for _, kd := range md3.SPSSODescriptor.KeyDescriptors {
+				if kd.Use == "encryption" && len(kd.KeyInfo.X509Data.X509Certificates) > 0 {
+					gotEnc = kd.KeyInfo.X509Data.X509Certificates[0].Data
+				}
+			}
+		}
+		if p3 != "" || gotEnc != wantEnc {
+			bad("after-replacing-the-encryption-key-store/metadata-publishes-a-stale-encryption-certificate", "panic=%q", p3)
+		}
+	}
 	if len(keys) > 0 {
 		return dedupe(keys), detail, "DIFFERS"
 	}
